@@ -230,11 +230,15 @@ Definition exec_op (tbl : meth -> list mop) (s : sstate) (o : op) : sstate :=
   end.
 
 (* a call outside the client's contract is rejected (visible to the differential run) *)
-Definition step (s : sstate) (o : op) : sstate * bool :=
-  if legal s o then (exec_op model_table s o, true) else (s, false).
+Definition step_t (tbl : meth -> list mop) (s : sstate) (o : op) : sstate * bool :=
+  if legal s o then (exec_op tbl s o, true) else (s, false).
+Definition run_from_t (tbl : meth -> list mop) (s : sstate) (l : list op) : sstate :=
+  fold_left (fun s o => fst (step_t tbl s o)) l s.
+Definition run_t (tbl : meth -> list mop) (nh : nat) (l : list op) : sstate := run_from_t tbl (init nh) l.
 
-Definition run_from (s : sstate) (l : list op) : sstate := fold_left (fun s o => fst (step s o)) l s.
-Definition run (nh : nat) (l : list op) : sstate := run_from (init nh) l.
+Definition step := step_t model_table.
+Definition run_from := run_from_t model_table.
+Definition run := run_t model_table.
 
 (* observations *)
 Definition use_count (s : sstate) (o : id) : Z := cnt (getobj (s_heap s) o).
@@ -312,7 +316,7 @@ Definition top_frame (fz : list (option id)) (hs : list slot) (o : top) : meth *
 
 Definition is_nil {A} (l : list A) : bool := match l with [] => true | _ => false end.
 
-Definition gstep (g : gstate) (l : label) : gstate :=
+Definition gstep_t (tbl : meth -> list mop) (g : gstate) (l : label) : gstate :=
   let fz := g_fz g in
   match l with
   | LStart t o =>
@@ -320,7 +324,7 @@ Definition gstep (g : gstate) (l : label) : gstate :=
       | Some th =>
           if is_nil (t_rem th) && top_legal fz (t_hs th) o
           then let '(m, fr) := top_frame fz (t_hs th) o in
-               mkG (g_heap g) fz (upd (g_ths g) t (mkT (t_hs th) (prog_of model_table m) fr))
+               mkG (g_heap g) fz (upd (g_ths g) t (mkT (t_hs th) (prog_of tbl m) fr))
           else g
       | None => g
       end
@@ -353,7 +357,9 @@ Definition gstep (g : gstate) (l : label) : gstate :=
       end
   end.
 
-Definition grun (g : gstate) (sched : list label) : gstate := fold_left gstep sched g.
+Definition grun_t (tbl : meth -> list mop) (g : gstate) (sched : list label) : gstate := fold_left (gstep_t tbl) sched g.
+Definition gstep := gstep_t model_table.
+Definition grun := grun_t model_table.
 
 (* start of the concurrent phase: the handles built by a sequential history become the shared
    read-only array; n threads, each with k (dead) handle slots of its own *)
@@ -408,6 +414,77 @@ Definition slot_eqb (a b : slot) : bool :=
   | _, _ => false
   end.
 
+(* ---------------------------------------------------------------- per-member contracts *)
+(* What a member does, seen from the thread alone (no heap): the counter RMWs it issues, in
+   order, with their targets; whether it does something outside the model (call through null
+   without a test, store through a const reference, unclassified statement); its final handles. *)
+Definition mev (fz : list (option id)) (m : mop) (fr : frame) (hs : list slot) : list (bool * id) :=
+  match m with
+  | MInc _ p => match eval fz fr hs p with Some o => [(true, o)] | None => [] end
+  | MDec _ p => match eval fz fr hs p with Some o => [(false, o)] | None => [] end
+  | _ => []
+  end.
+Fixpoint ptrace (fz : list (option id)) (rem : list mop) (fr : frame) (hs : list slot) : list (bool * id) :=
+  match rem with
+  | [] => []
+  | m :: r => mev fz m fr hs ++ ptrace fz r (fst (pexec fz m fr hs)) (snd (pexec fz m fr hs))
+  end.
+Definition mbad (fz : list (option id)) (m : mop) (fr : frame) (hs : list slot) : bool :=
+  match m with
+  | MInc g p | MDec g p => match eval fz fr hs p with Some _ => false | None => negb g end
+  | MStore DArg _ => match f_arg fr with AOwn _ | ARaw _ => false | _ => true end
+  | MUnknown => true
+  | _ => false
+  end.
+Fixpoint pbad (fz : list (option id)) (rem : list mop) (fr : frame) (hs : list slot) : bool :=
+  match rem with
+  | [] => false
+  | m :: r => mbad fz m fr hs || pbad fz r (fst (pexec fz m fr hs)) (snd (pexec fz m fr hs))
+  end.
+Fixpoint pfinal (fz : list (option id)) (rem : list mop) (fr : frame) (hs : list slot) : list slot :=
+  match rem with
+  | [] => hs
+  | m :: r => pfinal fz r (fst (pexec fz m fr hs)) (snd (pexec fz m fr hs))
+  end.
+
+(* abstract configurations: receiver slot 0 (no handle yet / null / object 0); argument: none,
+   another handle (slot 1: null / object 1), the receiver itself, a shared entry, a raw pointer.
+   Object names are irrelevant to a member (it never compares or inspects them), so "argument
+   = the receiver's object" is the renaming 1 -> 0 of a listed configuration. *)
+Definition acfg (tv : slot) (a : argv) (s1 : slot) (fz : list (option id)) : frame * list slot * list (option id) :=
+  (mkFrame 0 a no_loc None, [tv; s1], fz).
+Definition acfgs_src (tv : slot) : list (frame * list slot * list (option id)) :=
+  [acfg tv (AOwn 1) (SLive None) []; acfg tv (AOwn 1) (SLive (Some 1%nat)) [];
+   acfg tv (AFrozen 0) (SLive None) [None]; acfg tv (AFrozen 0) (SLive None) [Some 1%nat]].
+Definition acfgs_mov (tv : slot) : list (frame * list slot * list (option id)) :=
+  [acfg tv (AOwn 1) (SLive None) []; acfg tv (AOwn 1) (SLive (Some 1%nat)) []].
+Definition acfgs_raw (tv : slot) : list (frame * list slot * list (option id)) :=
+  [acfg tv (ARaw None) (SLive None) []; acfg tv (ARaw (Some 1%nat)) (SLive None) []].
+Definition acfgs (m : meth) : list (frame * list slot * list (option id)) :=
+  let lv := [SLive None; SLive (Some 0%nat)] in
+  match m with
+  | MDtor => map (fun tv => acfg tv ANone (SLive None) []) lv
+  | MDefCtor => [acfg SDead ANone (SLive None) []]
+  | MCopyCtor | MConvCtor => acfgs_src SDead
+  | MMoveCtor => acfgs_mov SDead
+  | MRawCtor => acfgs_raw SDead
+  | MCopyAssign => flat_map (fun tv => acfg tv (AOwn 0) (SLive None) [] :: acfgs_src tv) lv
+  | MMoveAssign => flat_map (fun tv => acfg tv (AOwn 0) (SLive None) [] :: acfgs_mov tv) lv
+  | MRawAssign => flat_map acfgs_raw lv
+  end.
+
+Definition ev_pair_eqb (a b : bool * id) : bool := Bool.eqb (fst a) (fst b) && Nat.eqb (snd a) (snd b).
+(* the contract of member m on configuration c, relative to the reference row [ref m]:
+   nothing outside the model, the same RMWs on the same targets in the same order, the same
+   final pointers *)
+Definition prog_ok (ref tbl : meth -> list mop) (m : meth) (c : frame * list slot * list (option id)) : bool :=
+  let '(fr, hs, fz) := c in
+  negb (pbad fz (prog_of tbl m) fr hs) &&
+  list_eqb ev_pair_eqb (ptrace fz (prog_of tbl m) fr hs) (ptrace fz (prog_of ref m) fr hs) &&
+  list_eqb slot_eqb (pfinal fz (prog_of tbl m) fr hs) (pfinal fz (prog_of ref m) fr hs).
+Definition contracts_ok (tbl : meth -> list mop) : bool :=
+  forallb (fun m => forallb (prog_ok model_table tbl m) (acfgs m)) all_meths.
+
 (* the abstract configurations a member can distinguish: receiver null / A; argument
    null / A / B, as another handle, as the receiver itself, as a shared entry, as a raw pointer *)
 Definition cfg_heap : heap := mkHeap [mkObj 5 true 5; mkObj 5 true 5] false [].
@@ -454,3 +531,36 @@ Definition check (gen : meth -> list mop) (r : rcfacts) : bool :=
 (* first member whose generated program differs, for the report *)
 Definition failing_meths (gen : meth -> list mop) : list meth :=
   filter (fun m => negb (meth_ok gen m)) all_meths.
+
+(* ---------------------------------------------------------------- comparison operators and accessors *)
+(* operator== / != / < as expressions over the two handles' ptr fields (x = a.ptr, y = b.ptr,
+   read as addresses); operator bool / -> / * as three facts *)
+Inductive cside := CA | CB.
+Inductive ckind := KEq | KNe | KLt | KLe | KGt | KGe.
+Inductive cexp := CCmp (k : ckind) (l r : cside) | CNot (e : cexp) | CUnk.
+Definition cside_val (x y : Z) (s : cside) : Z := match s with CA => x | CB => y end.
+Fixpoint ceval (e : cexp) (x y : Z) : bool :=
+  match e with
+  | CCmp k l r =>
+      let a := cside_val x y l in let b := cside_val x y r in
+      match k with
+      | KEq => a =? b | KNe => negb (a =? b) | KLt => a <? b | KLe => a <=? b | KGt => b <? a | KGe => b <=? a
+      end
+  | CNot e' => negb (ceval e' x y)
+  | CUnk => false
+  end.
+Fixpoint cwf (e : cexp) : bool := match e with CUnk => false | CNot e' => cwf e' | CCmp _ _ _ => true end.
+Record cmpfacts := mkCmp {
+  c_eq : cexp; c_ne : cexp; c_lt : cexp;
+  a_bool : bool;      (* operator bool returns ptr != nullptr *)
+  a_arrow : bool;     (* operator-> returns ptr *)
+  a_deref : bool      (* operator* returns *ptr *)
+}.
+Definition model_cmp := mkCmp (CCmp KEq CA CB) (CCmp KNe CA CB) (CCmp KLt CA CB) true true true.
+Definition cmp_pts : list (Z * Z) := [(0, 0); (0, 1); (1, 0)].
+Definition cmp_ok (c : cmpfacts) : bool :=
+  cwf (c_eq c) && cwf (c_ne c) && cwf (c_lt c) &&
+  forallb (fun p => Bool.eqb (ceval (c_eq c) (fst p) (snd p)) (fst p =? snd p) &&
+                    Bool.eqb (ceval (c_ne c) (fst p) (snd p)) (negb (fst p =? snd p)) &&
+                    Bool.eqb (ceval (c_lt c) (fst p) (snd p)) (fst p <? snd p)) cmp_pts &&
+  a_bool c && a_arrow c && a_deref c.
